@@ -1,6 +1,16 @@
-"""Discharge verification conditions: z3 (Python API) first, /usr/bin/cvc5 for z3's
-unknowns, then z3 once more with a larger budget.  VCs are independent and are farmed
-to a fork()ed process pool (children inherit the z3 ASTs copy-on-write)."""
+"""Discharge verification conditions: z3 (Python API) first, /usr/bin/cvc5 for z3's unknowns, then z3 again with
+other seeds and a larger budget.  VCs are independent and are farmed to fork()ed worker processes (children
+inherit the z3 ASTs copy-on-write).
+
+Robustness measures (all found necessary in practice with z3 5.1):
+  * obligations emitted at the same point of a path share their hypotheses: their conjunction is tried first;
+  * a query is first tried WITHOUT its quantified hypotheses (sound: fewer hypotheses); `unsat` is final, and a
+    `sat` answer yields a *candidate* counter-model (z3 may never return on the full, satisfiable, quantified query);
+  * z3 does not always honour its timeout (lp::dioph_eq) and cannot safely be interrupted from a second Python
+    thread (GC there frees ASTs under the solver's feet): the parent kills a worker that exceeds a hard wall-clock
+    limit, retries the work in smaller pieces / without the Diophantine module, and finally records `unknown`.
+`unknown` is never reported as proved, and never as a counterexample: the caller replays candidate models natively.
+"""
 import multiprocessing as mp
 import os
 import subprocess
@@ -10,8 +20,11 @@ from fractions import Fraction
 
 import z3
 
-_OBS = []          # set before the pool forks
+_OBS = []          # set before the workers fork
 _CFG = {}
+_EXPENSIVE = None  # shared counter of VCs that entered the retry ladder (bounded: a badly broken tree is reported
+                   # in minutes; on the unchanged tree the ladder is rarely entered at all)
+_CONN = None       # worker side of the pipe (for early candidate-model messages)
 
 
 def _val(v):
@@ -44,6 +57,23 @@ def model_dict(m, ob, wt):
     return out
 
 
+def small_model(s, m, ob, wt):
+    """prefer a small counter-model (replays build real objects from it): bound every integer constant"""
+    ints = [d() for d in m.decls() if d.arity() == 0 and d.range() == z3.IntSort()]
+    for bound in (16, 256, 4096):
+        s.push()
+        s.set('timeout', 3000)
+        for c in ints:
+            s.add(c >= -bound, c <= bound)
+        r = s.check()
+        if r == z3.sat:
+            m = s.model()
+            s.pop()
+            break
+        s.pop()
+    return model_dict(m, ob, wt)
+
+
 def run_cvc5(smt2, tlimit_ms):
     with tempfile.NamedTemporaryFile('w', suffix='.smt2', delete=False) as f:
         f.write('(set-logic ALL)\n' + smt2 + '\n(check-sat)\n')
@@ -59,24 +89,29 @@ def run_cvc5(smt2, tlimit_ms):
         os.unlink(path)
 
 
-def _guarded_check(s, timeout_ms):
-    """Plain check().  z3's timeout is not honoured inside some integer procedures (observed: lp::dioph_eq), but a
-    watchdog *thread* is not an option: a second Python thread may run the garbage collector and release z3 ASTs
-    while the main thread is inside the solver (observed: heap corruption).  Hangs are handled by the parent
-    process, which kills a worker that exceeds the hard wall-clock limit (_run_pool)."""
-    return s.check()
+def _has_q(t, _memo={}):
+    k = t.get_id()
+    if k not in _memo:
+        _memo[k] = z3.is_quantifier(t) or any(_has_q(c) for c in t.children())
+    return _memo[k]
 
 
-def _check(ob, with_defs, timeout, seed=None):
+def _solver(hyps, goals_negated, timeout, seed=None):
     s = z3.Solver()
     s.set('timeout', timeout)
     if seed is not None:
         s.set('random_seed', seed)
-    s.add(*ob.pc)
-    if with_defs:
-        s.add(*ob.defs)
-    s.add(z3.Not(ob.goal))
-    return s, _guarded_check(s, timeout)
+    s.add(*hyps)
+    s.add(goals_negated)
+    return s
+
+
+def _relaxed(obs_list):
+    """hypotheses without their quantified conjuncts; None if there are none to drop"""
+    ob0 = obs_list[0]
+    hyps = list(ob0.pc) + list(ob0.defs)
+    qf = [h for h in hyps if not _has_q(h)]
+    return qf if len(qf) < len(hyps) else None
 
 
 def _solve(i):
@@ -84,86 +119,92 @@ def _solve(i):
     timeout = _CFG['timeout']
     t0 = time.time()
     res = {'backend': 'z3'}
+    done = lambda **kw: (res.update(ms=int(1000 * (time.time() - t0)), **kw), (i, res))[1]
+    neg = z3.Not(ob.goal)
     if ob.kind == 'canary':
         # only `unsat` matters for a canary (it must NOT be provable): small budget, one back end
-        s, r = _check(ob, True, min(timeout, 3000))
-        res.update(status=str(r), ms=int(1000 * (time.time() - t0)))
-        return i, res
-    if ob.defs:
-        # definitional equations are only hypotheses: without them the query is smaller; `unsat` is final
-        s, r = _check(ob, False, max(1000, timeout // 4))
+        r = _solver(list(ob.pc) + list(ob.defs), neg, min(timeout, 3000)).check()
+        return done(status=str(r))
+    # 1. without quantified hypotheses (smaller, and the only form in which z3 reliably finds counter-models)
+    qf = _relaxed([ob])
+    if qf is not None and not _has_q(ob.goal):
+        s = _solver(qf, neg, max(2000, timeout // 4))
+        r = s.check()
         if r == z3.unsat:
-            res.update(status='unsat', ms=int(1000 * (time.time() - t0)), defs_used=False)
-            return i, res
-    s, r = _check(ob, True, timeout)
+            return done(status='unsat', note='proved without the quantified hypotheses')
+        if r == z3.sat and _CONN is not None:
+            try:
+                _CONN.send(('candidate', i, small_model(s, s.model(), ob, wt)))
+            except Exception:
+                pass
+    # 2. without the definitional equations
+    if ob.defs:
+        r = _solver(ob.pc, neg, max(1000, timeout // 4)).check()
+        if r == z3.unsat:
+            return done(status='unsat', note='proved without the definitional equations')
+    # 3. the full query
+    full = list(ob.pc) + list(ob.defs)
+    s = _solver(full, neg, timeout)
+    r = s.check()
     if r == z3.unknown and _CFG.get('cvc5', True):
         c = run_cvc5(s.to_smt2().replace('(check-sat)', ''), timeout)
         if c == 'unsat':
-            res.update(status='unsat', backend='cvc5', ms=int(1000 * (time.time() - t0)))
-            return i, res
-        # a cvc5 `sat` carries no model through this route: fall through to z3's bigger budget
-    if r == z3.unknown:
-        # nonlinear queries are sensitive to the search order: other seeds before the big budget
-        for seed in (7, 23, 101):
-            s, r = _check(ob, True, timeout, seed)
+            return done(status='unsat', backend='cvc5')
+        # a cvc5 `sat` carries no model through this route: fall through to z3's ladder
+    ladder = True
+    if r == z3.unknown and _EXPENSIVE is not None:
+        with _EXPENSIVE.get_lock():
+            _EXPENSIVE.value += 1
+            ladder = _EXPENSIVE.value <= _CFG.get('max_ladder', 24)
+    if r == z3.unknown and ladder:
+        for seed in (7, 23, 101):       # nonlinear queries are sensitive to the search order
+            s = _solver(full, neg, timeout, seed)
+            r = s.check()
             if r != z3.unknown:
                 res['backend'] = f'z3(seed {seed})'
                 break
-    if r == z3.unknown:
-        s, r = _check(ob, True, 4 * timeout)
-        res['backend'] = 'z3(4x)'
+        if r == z3.unknown:
+            s = _solver(full, neg, 4 * timeout)
+            r = s.check()
+            res['backend'] = 'z3(4x)'
     if r == z3.unknown:
         res['reason'] = s.reason_unknown()
-    res['status'] = str(r)
     if r == z3.sat:
         try:
-            m = s.model()
-            # prefer a small counter-model (replays build real objects from it): bound every integer constant
-            ints = [d() for d in m.decls() if d.arity() == 0 and d.range() == z3.IntSort()]
-            for bound in (16, 256, 4096):
-                s.push()
-                s.set('timeout', 4000)
-                for c in ints:
-                    s.add(c >= -bound, c <= bound)
-                if _guarded_check(s, 4000) == z3.sat:
-                    m = s.model()
-                    s.pop()
-                    break
-                s.pop()
-            res['model'] = model_dict(m, ob, wt)
+            res['model'] = small_model(s, s.model(), ob, wt)
         except Exception as err:
             res['model'] = {'__model_error__': repr(err)}
-    res['ms'] = int(1000 * (time.time() - t0))
     if _CFG.get('second_backend') and r == z3.unsat:
         res['cvc5'] = run_cvc5(s.to_smt2().replace('(check-sat)', ''), timeout)
-    return i, res
+    return done(status=str(r))
 
 
 def _batch(idxs):
-    """Obligations emitted at the same point of the same path share their path condition: try their
-    conjunction in one query first; `unsat` discharges them all, anything else falls back to one query each."""
+    """Obligations emitted at the same point of the same path share their path condition: try their conjunction
+    in one query first; `unsat` discharges them all, anything else falls back to one query each."""
     if len(idxs) > 1:
-        ob0 = _OBS[idxs[0]][0]
+        obs = [_OBS[i][0] for i in idxs]
         t0 = time.time()
-        s = z3.Solver()
-        s.set('timeout', _CFG['timeout'])
-        s.add(*ob0.pc)
-        s.add(z3.Not(z3.And(*[_OBS[i][0].goal for i in idxs])))
-        if _guarded_check(s, _CFG['timeout']) == z3.unsat:
-            ms = int(1000 * (time.time() - t0))
-            return [(i, {'status': 'unsat', 'backend': 'z3', 'ms': ms // len(idxs), 'batched': len(idxs)}) for i in idxs]
-        if ob0.defs:
-            s.add(*ob0.defs)
-            if _guarded_check(s, _CFG['timeout']) == z3.unsat:
-                ms = int(1000 * (time.time() - t0))
-                return [(i, {'status': 'unsat', 'backend': 'z3', 'ms': ms // len(idxs), 'batched': len(idxs)}) for i in idxs]
+        neg = z3.Not(z3.And(*[o.goal for o in obs]))
+        ok = lambda note: [(i, {'status': 'unsat', 'backend': 'z3', 'ms': int(1000 * (time.time() - t0)) // len(idxs),
+                                'batched': len(idxs), 'note': note}) for i in idxs]
+        qf = _relaxed(obs)
+        if qf is not None and not any(_has_q(o.goal) for o in obs):
+            r = _solver(qf, neg, max(2000, _CFG['timeout'] // 4)).check()
+            if r == z3.unsat:
+                return ok('proved without the quantified hypotheses')
+            if r == z3.sat:
+                return [_solve(i) for i in idxs]      # some member probably fails: do not try the full conjunction
+        if _solver(list(obs[0].pc) + list(obs[0].defs), neg, _CFG['timeout']).check() == z3.unsat:
+            return ok('')
     return [_solve(i) for i in idxs]
 
 
 def discharge(obligations, witness_terms, timeout_ms=20000, procs=None, second_backend=False, cvc5=True):
     """obligations: list of engine.Obligation; witness_terms: parallel list of callables or None.
-    Sets ob.result = {'status': 'unsat'|'sat'|'unknown', 'backend', 'ms', 'model'?}."""
-    global _OBS, _CFG
+    Sets ob.result = {'status': 'unsat'|'sat'|'unknown', 'backend', 'ms', 'model'?, 'model_relaxed'?}."""
+    global _OBS, _CFG, _EXPENSIVE
+    _EXPENSIVE = mp.get_context('fork').Value('i', 0)
     _OBS = list(zip(obligations, witness_terms))
     _CFG = {'timeout': timeout_ms, 'second_backend': second_backend, 'cvc5': cvc5}
     procs = procs or min(16, os.cpu_count() or 4)
@@ -187,6 +228,8 @@ def discharge(obligations, witness_terms, timeout_ms=20000, procs=None, second_b
 
 
 def _worker(conn):
+    global _CONN
+    _CONN = conn
     while True:
         try:
             k = conn.recv()
@@ -197,19 +240,16 @@ def _worker(conn):
         idxs, dio = k
         if not dio:
             z3.set_param('lp.dio', False)
-        conn.send(_batch(idxs))
+        conn.send(('done', _batch(idxs)))
 
 
 def _run_pool(work, procs, hard_limit_s):
-    """fork()ed workers fed one batch at a time; a worker that does not answer within the hard wall-clock limit
-    (z3 5.1's integer procedures do not always honour their timeout or an interrupt) is killed, its batch is
-    retried once without the Diophantine-equation module and otherwise recorded as `unknown`."""
     from multiprocessing.connection import wait
     ctx = mp.get_context('fork')
     pending = [(idxs, True) for idxs in work]
     pending.reverse()
     workers = {}           # conn -> [process, (idxs, dio) | None, start time]
-    results = []
+    results, candidates = {}, {}
 
     def spawn():
         parent, child = ctx.Pipe()
@@ -217,6 +257,9 @@ def _run_pool(work, procs, hard_limit_s):
         p.start()
         child.close()
         workers[parent] = [p, None, 0.0]
+
+    def give_up(i, why):
+        results[i] = {'status': 'unknown', 'backend': 'z3', 'ms': int(1000 * hard_limit_s), 'reason': why}
 
     for _ in range(min(procs, len(pending))):
         spawn()
@@ -233,10 +276,17 @@ def _run_pool(work, procs, hard_limit_s):
             for conn in wait(busy, timeout=1.0):
                 w = workers[conn]
                 try:
-                    results.extend(conn.recv())
-                except (EOFError, OSError):          # the worker died (out of memory, crash): same treatment as a hang
+                    msg = conn.recv()
+                except (EOFError, OSError):          # the worker died (crash, out of memory): treated like a hang
                     w[2] = -1e18
                     continue
+                if msg[0] == 'candidate':
+                    candidates[msg[1]] = msg[2]
+                    # the full query now most likely is satisfiable (where z3 may never return): tighter deadline
+                    w[2] = min(w[2], time.time() + max(20.0, _CFG['timeout'] / 1000.0) - hard_limit_s)
+                    continue
+                for i, res in msg[1]:
+                    results[i] = res
                 w[1] = None
             now = time.time()
             for conn, w in list(workers.items()):
@@ -248,13 +298,19 @@ def _run_pool(work, procs, hard_limit_s):
                         pass
                     conn.close()
                     del workers[conn]
-                    if dio and len(idxs) > 1:
-                        pending.extend(([i], True) for i in idxs)      # retry the batch's members one by one
-                    elif dio:
-                        pending.append((idxs, False))                  # then once without the Diophantine module
+                    todo = [i for i in idxs if i not in results]
+                    # a member whose relaxed query already produced a counter-model candidate is not retried: the
+                    # full query is most likely satisfiable and z3 does not return on it
+                    for i in [i for i in todo if i in candidates]:
+                        give_up(i, 'solver did not return on the full query; a candidate counter-model exists')
+                    todo = [i for i in todo if i not in candidates]
+                    if dio and len(todo) > 1:
+                        pending.extend(([i], True) for i in todo)      # retry the batch's members one by one
+                    elif dio and todo:
+                        pending.append((todo, False))                  # then once without the Diophantine module
                     else:
-                        results.extend((i, {'status': 'unknown', 'backend': 'z3', 'ms': int(1000 * hard_limit_s),
-                                            'reason': 'hard wall-clock limit: solver did not return'}) for i in idxs)
+                        for i in todo:
+                            give_up(i, 'hard wall-clock limit: solver did not return')
                     spawn()
     finally:
         for conn, w in workers.items():
@@ -265,4 +321,8 @@ def _run_pool(work, procs, hard_limit_s):
             w[0].join(timeout=0.2)
             if w[0].is_alive():
                 w[0].kill()
-    return results
+    for i, res in results.items():
+        if res['status'] == 'unknown' and i in candidates:
+            res['model'] = candidates[i]
+            res['model_relaxed'] = True       # a model of the hypotheses without their quantified part: a candidate only
+    return list(results.items())
